@@ -299,6 +299,26 @@ func (r *Rec) numFresh() int {
 	return n
 }
 
+// ViolationSigs / ViolationMsg expose what was recorded (used by `vc replay`).
+func (r *Rec) ViolationSigs() []string {
+	r.mu.Lock()
+	defer r.mu.Unlock()
+	out := make([]string, 0, len(r.viol))
+	for s := range r.viol {
+		out = append(out, s)
+	}
+	sort.Strings(out)
+	return out
+}
+func (r *Rec) ViolationMsg(sig string) string {
+	r.mu.Lock()
+	defer r.mu.Unlock()
+	if v, ok := r.viol[sig]; ok {
+		return v.Msg
+	}
+	return ""
+}
+
 func (r *Rec) NumViolations() int { r.mu.Lock(); defer r.mu.Unlock(); return len(r.viol) }
 
 func loadFindings() []Finding {
